@@ -2,8 +2,11 @@ module verif/harness
 
 go 1.23
 
+require github.com/whatap/golib v0.0.0
+
 require (
-	github.com/whatap/golib v0.0.0
+	github.com/google/uuid v1.3.0 // indirect
+	golang.org/x/text v0.7.0 // indirect
 )
 
 replace github.com/whatap/golib => /repo
